@@ -19,7 +19,8 @@
      7  contents of a good response did not reach the output
      8  a warning was not shown
      10 the plugin process outlived thriftgo after the time limit
-     11 the AST thriftgo holds after a compressed send is not the one it had before *)
+     11 the AST thriftgo holds after a compressed send is not the one it had before
+     12 hasDataTrailerFeature answers differently from "all requested feature bits are set" *)
 From Coq Require Import List Arith Bool NArith ZArith Lia.
 From Coq.Strings Require Import Byte String.
 From Verif Require Import Base.Bytes Base.BE Wire.TType Wire.WVal Wire.Codec Wire.Schema Wire.SchemaPlugin
@@ -277,12 +278,18 @@ Definition check_req (c : req_case) : list N :=
             (if rc_go_unm_comp c then [] else [3%N]) ++
             (if rc_go_restored c then [] else [11%N])
           else [] in
+        let args_ok (r : request) : bool :=
+          match params_of (rc_lang_arg c), language_of (rc_lang_arg c), params_of (rc_plugin_arg c) with
+          | Some g, Some l, Some p =>
+              list_beqb g (rq_gen_params r) && beqb l (rq_language r) && list_beqb p (rq_plugin_params r)
+          | _, _, _ => false end in
+        let decoded (bs : bytes) : option request :=
+          match dec_struct bs with Some (w, _) => dec_request w | None => None end in
         let arg_codes :=
           if rc_check_args c then
-            (match params_of (rc_lang_arg c), language_of (rc_lang_arg c), params_of (rc_plugin_arg c) with
-             | Some g, Some l, Some p =>
-                 if list_beqb g (du_gen d) && beqb l (du_language d) && list_beqb p (du_plugin d) then [] else [5%N]
-             | _, _, _ => [5%N] end)
+            (if args_ok expected then [] else [5%N]) ++
+            (match decoded (rc_plain c) with Some r => if args_ok r then [] else [5%N] | None => [] end) ++
+            (if rc_has_comp c then match decoded (rc_comp c) with Some r => if args_ok r then [] else [5%N] | None => [] end else [])
           else [] in
         plain_codes ++ comp_codes ++ arg_codes ++ (if rc_go_unm_plain c then [] else [2%N])
       end
@@ -338,7 +345,8 @@ Definition check_case (c : case) : list N :=
   | CTrailer d f f' app has plain_has =>
       (if beqb (append_trailer d f) app then [] else [1%N]) ++
       (if Bool.eqb (has_feature app f') has then [] else [1%N]) ++
-      (if Bool.eqb (has_feature d f') plain_has then [] else [1%N])
+      (if Bool.eqb (has_feature d f') plain_has then [] else [1%N]) ++
+      (if Bool.eqb has (Z.land f f' =? f') then [] else [12%N])
   | CArgs s ok name packed =>
       match parse_compact s, ok with
       | None, false => []
